@@ -655,12 +655,12 @@ pub fn run_creation_case(case: &CreationCase, dir: &Path) -> CaseResult {
 fn run(ctx: &Ctx) {
 	let thorough = ctx.tier == "thorough";
 	let opts = CrashOpts { cap: if thorough { 400 } else { 150 }, rec_depth: if thorough { 3 } else { 2 }, synced_bound: false, tail: true, layout: false, tolerate_known: true };
-	let n = scaled(ctx, 56, 2_800);
+	let n = scaled(ctx, 56, 1_400);
 	if !ctx.run_prop_shrink("small", n, 60, crash_case(3, 4, 12, true), |c, dir| run_crash_case(c, dir, &opts)) {
 		return
 	}
 	if thorough {
-		let n = scaled(ctx, 0, 700);
+		let n = scaled(ctx, 0, 300);
 		if !ctx.run_prop_shrink("large", n, 60, crash_case(4, 12, 40, true), |c, dir| run_crash_case(c, dir, &opts)) {
 			return
 		}
